@@ -118,7 +118,7 @@ def run_group(features, harnesses, jobs=8):
         names[h.name] = h
     info = {'cmd': ' '.join(cmd), 'features': features or '(default)'}
     rc, out, wall, timed_out = run(cmd, timeout=to * max(1, (len(harnesses) + jobs - 1) // jobs) + 900,
-                                   mem_gb=max(h.mem_gb for h in harnesses))
+                                   mem_gb=(None if any(h.mem_gb is None for h in harnesses) else max(h.mem_gb for h in harnesses)))
     info['wall_s'] = round(wall, 1)
     obs = []
     res = parse_terse(out)
